@@ -1032,7 +1032,7 @@ def main():
     t0 = time.time()
     import multiprocessing as mp
     nproc = min(16, os.cpu_count() or 1)
-    tmp = tempfile.mkdtemp(prefix='pytough-', dir='/var/tmp')
+    tmp = tempfile.mkdtemp(prefix='pytough-', dir=os.environ.get('PYTOUGH_SCRATCH', '/var/tmp'))
     total = Stats()
     total.cpu = 0.
     samples = []
